@@ -48,12 +48,26 @@ func VerifC04Parse() {
 
 // VerifC04ParseErrors: failing parses write nothing shared either.
 func VerifC04ParseErrors() {
-	srcs := []string{"{% if %}", "{{ 1 + }}", "{% for x %}{% endfor %}", "{% no_such_tag %}", "{% if true %}", "{% cycle %}", "{{ x | }}"}
+	srcs := []string{"{% if %}", "{{ 1 + }}", "{% for x %}{% endfor %}", "{% no_such_tag %}", "{% if true %}", "{% cycle %}", "{{ x | }}",
+		// every structural rejection of the block parser (their messages list parent tags, block names, ...)
+		"{% else %}", "{% if a %}x{% endif %}{% else %}y", "{% for x in a %}{% when 1 %}{% endfor %}", "{% endif %}",
+		"{% case 1 %}{% elsif true %}{% endcase %}", "{% if a %}{% endfor %}", "{% unless a %}{% elsif b %}{% endunless %}",
+		"{% raw %}x", "{% comment %}x", "{% tablerow %}{% endtablerow %}", "{% when 1 %}",
+		"{% if a %}{% for x in a %}{% endif %}{% endfor %}"}
+	k := nd.Choice(len(srcs) + len(c01Sources))
 	e := NewEngine()
+	src := ""
+	if k < len(srcs) {
+		src = srcs[k]
+	} else {
+		src = c01Sources[k-len(srcs)] // malformed and truncated syntax: most are rejected, some parse
+	}
 	nd.BeginRender()
-	_, perr := e.ParseString(srcs[nd.Choice(len(srcs))])
+	_, perr := e.ParseString(src)
 	nd.EndRender()
-	nd.Assert(perr != nil, "bad-source-rejected")
+	if k < len(srcs) {
+		nd.Assert(perr != nil, "bad-source-rejected")
+	}
 	nd.Reach("C04.parseerrors")
 }
 
@@ -85,4 +99,39 @@ func VerifC04Include() {
 	nd.EndRender()
 	nd.Assert(err == nil, "include-renders")
 	nd.Reach("C04.include")
+}
+
+// VerifC04ResultsOwned: what one render returns belongs to its caller. Later renders (of the same
+// or another template, through any entry point — sequentially here, which is one schedule of the
+// concurrent case) never change bytes already returned, and the caller scribbling over a returned
+// slice never changes what later renders produce. Buffer recycling (sync.Pool is modelled as a
+// free list whose last item is handed out next) would break exactly this.
+func VerifC04ResultsOwned() {
+	e := NewEngine()
+	n := nd.IntIn(0, 9)
+	b := Bindings{"n": n, "s": "0123456789abcdef"}
+	srcs := []string{"A{{ n }}B", "{{ s }}{{ s }}{{ n }}", "{% for i in (1..3) %}{{ i }}{{ n }}{% endfor %}"}
+	t1, err1 := e.ParseString(srcs[nd.Choice(len(srcs))])
+	t2, err2 := e.ParseString(srcs[nd.Choice(len(srcs))])
+	nd.Assert(err1 == nil && err2 == nil, "parses")
+	if err1 != nil || err2 != nil {
+		return
+	}
+	out1, rerr := t1.Render(b)
+	nd.Assert(rerr == nil, "renders")
+	keep1 := string(out1)
+	out2, _ := t2.Render(b)
+	keep2 := string(out2)
+	out3, _ := e.ParseAndRender([]byte("xxxxxxxxxxxxxxxxxxxxxxxxxxxxxxxxxxxxxxxx{{ n }}"), b)
+	keep3 := string(out3)
+	s4, _ := t2.RenderString(b)
+	nd.Assert(string(out1) == keep1, "first-result-not-overwritten")
+	nd.Assert(string(out2) == keep2 && s4 == keep2, "second-result-not-overwritten")
+	nd.Assert(string(out3) == keep3, "third-result-not-overwritten")
+	for i := range out1 {
+		out1[i] = '#'
+	}
+	out5, _ := t1.Render(b)
+	nd.Assert(string(out5) == keep1, "caller-writes-do-not-reach-later-renders")
+	nd.Reach("C04.resultsowned")
 }
